@@ -83,6 +83,35 @@ def shim_stages_text():
     return body
 
 
+def transcribed_specs():
+    """Spec functions marked `//@conform` in spec/lib: transcriptions of dependency functions written as plain `match`
+    expressions, re-emitted as executable Rust (`pub open spec fn` -> `pub fn`, `int` = i64) so that they can be run next to the
+    real function."""
+    out = []
+    for f in sorted(glob.glob(os.path.join(ROOT, 'spec', 'lib', '*.rs'))):
+        t = open(f, encoding='utf-8').read()
+        for m in re.finditer(r'//@conform\n(pub open spec fn (\w+)\b)', t):
+            a = m.start(1)
+            b = t.index('{', a)
+            depth, k = 0, b
+            while True:
+                if t[k] == '{':
+                    depth += 1
+                elif t[k] == '}':
+                    depth -= 1
+                    if depth == 0:
+                        break
+                k += 1
+            out.append((m.group(2), t[a:k + 1].replace('pub open spec fn', 'pub fn', 1)))
+    return out
+
+
+def sa_bit_constants():
+    """The bit values the prelude assumes for naga::StorageAccess::{LOAD, STORE, ATOMIC}."""
+    t = open(os.path.join(ROOT, 'spec', 'lib', 'prelude.rs'), encoding='utf-8').read()
+    return {n: int(v) for v, n in re.findall(r'ensures sa_bits\(r\) == (\d+) \{ naga::StorageAccess::(\w+) \}', t)}
+
+
 def enum_variants(path, name):
     src = open(path, encoding='utf-8').read()
     m = re.search(r'pub enum %s\s*\{' % name, src)
@@ -159,6 +188,21 @@ def generate(src_dir):
     g.append('        out.push(Outcome { name: format!("debug.VertexFormat.{}", n), ok: d == n, detail: format!("{:?}", d) });')
     g.append('    }')
     g.append('}')
+    g.append('pub mod transcribed {')
+    g.append('    #![allow(non_camel_case_types, unused_variables)]')
+    g.append('    pub type int = i64;')
+    names = []
+    for name, text in transcribed_specs():
+        names.append(name)
+        g.append(text)
+    sab = sa_bit_constants()
+    for n in ('LOAD', 'STORE', 'ATOMIC'):
+        g.append('    pub const SA_%s: u32 = %d;' % (n, sab[n]))
+    g.append('    pub const ALL_VERTEX_FORMATS: [wgpu_types::VertexFormat; %d] = [%s];' % (len(vf), ', '.join('wgpu_types::VertexFormat::' + v for v in vf)))
+    g.append('}')
+    for need in ('lit_zero', 'inner_scalar', 'stmt_is_terminator', 'vf_shape'):
+        if need not in names:
+            raise RuntimeError('transcribed spec %s not found (//@conform marker lost?)' % need)
     text = '\n'.join(g) + '\n'
     sha = hashlib.sha256(json.dumps([(t['file'], t['text']) for t in tpls]).encode()).hexdigest()[:16]
     return text, tpls, sha, sf, vf
